@@ -14,7 +14,7 @@ pub mod c01 {
 
     /// a fresh reader (no cache history) must find exactly the record with `hdr`/`data` at `off`
     fn expect_record<const H: usize>(fl: &FlushedOffset, off: u64, hdr: &[u8; H], data: &[u8]) {
-        let mut r = Reader::<H>::verif_new(fmodel::fake_file(), fl.clone());
+        let mut r = Reader::<H>::open("seg", Some(fl.clone())).unwrap();
         let got = r.read_record(off, ReadHint::Random);
         match &got {
             Ok(rec) => {
@@ -36,16 +36,18 @@ pub mod c01 {
         std::mem::forget(r);
     }
 
+    /// called only where the BufWriter is known to be empty (right after sync / set_len / flush_writer):
+    /// the file cursor must then sit exactly at the logical write offset
     fn physical_eq_logical<const H: usize>(w: &Writer<H>) {
         unsafe {
-            assert!(fmodel::CURSOR + w.verif_buffered() as u64 == w.write_offset(),
-                    "file cursor + buffered bytes != logical write offset (next record would land elsewhere)");
+            assert!(fmodel::CURSOR == w.write_offset(),
+                    "file cursor != logical write offset after a flush (the next record would land elsewhere)");
         }
     }
 
     /// A B | rollback to B's start | C | sync  -- the exact shape of handle_append_events' error path
     pub fn rollback_then_append<const H: usize>(n1: usize, n2: usize, n3: usize, start: u64, sync_before: bool, rollback_two: bool) {
-        let mut w = Writer::<H>::verif_new(fmodel::fake_file(), SEG, start);
+        let mut w = Writer::<H>::create("seg", SEG, start).unwrap();
         let fl = w.flushed_offset();
         let (d1, d2, d3) = (any_bytes(), any_bytes(), any_bytes());
         let (h1, h2, h3): ([u8; H], [u8; H], [u8; H]) = (kani::any(), kani::any(), kani::any());
@@ -76,7 +78,7 @@ pub mod c01 {
 
     /// plain sequence: A, B, flush, C, sync — every record at its returned offset, contiguous
     pub fn append_sequence<const H: usize>(n1: usize, n2: usize, n3: usize, start: u64) {
-        let mut w = Writer::<H>::verif_new(fmodel::fake_file(), SEG, start);
+        let mut w = Writer::<H>::create("seg", SEG, start).unwrap();
         let fl = w.flushed_offset();
         let (d1, d2, d3) = (any_bytes(), any_bytes(), any_bytes());
         let (h1, h2, h3): ([u8; H], [u8; H], [u8; H]) = (kani::any(), kani::any(), kani::any());
@@ -100,7 +102,7 @@ pub mod c01 {
 
     /// a segment-full append changes nothing and the next fitting append still lands correctly
     pub fn segment_full_is_clean<const H: usize>(n1: usize, start: u64) {
-        let mut w = Writer::<H>::verif_new(fmodel::fake_file(), SEG, start);
+        let mut w = Writer::<H>::create("seg", SEG, start).unwrap();
         let fl = w.flushed_offset();
         let d1 = any_bytes();
         let h1: [u8; H] = kani::any();
@@ -111,7 +113,6 @@ pub mod c01 {
         assert!(matches!(res, Err(WriteError::SegmentFull { .. })), "oversized append must report SegmentFull");
         std::mem::forget(res);
         assert!(w.write_offset() == o1 + l1 as u64, "failed append moved the write offset");
-        physical_eq_logical(&w);
         let (o2, l2) = w.append(&h1, &d1[..n1]).unwrap();
         w.sync().unwrap();
         expect_record::<H>(&fl, o1, &h1, &d1[..n1]);
